@@ -155,3 +155,45 @@ Definition entry_tok (inp : list Z) : list Z :=
       to_wire ((if dc then show_caches (ps_c ps) ++ [32%N] else []) ++ join [32%N] lines)
   | None => bad_input
   end.
+
+(** ** several parsing states on ONE reader (entry sub 1): the script is a list of
+    (operation, index of the state to use for it) *)
+Fixpoint run_script_multi (fuel : nat) (states : list pstate) (ops : list (Z * nat)) (r : reader)
+         (last : option token) : list str :=
+  match ops with
+  | [] => []
+  | (op, k) :: rest =>
+    match nth_error states k with
+    | None => [[63%N]]
+    | Some ps =>
+      match run_script fuel ps [op] r last with
+      | [line] =>
+          let '(r', last') :=
+              match op with
+              | 0%Z => let '(x, r') := peek_token ps r in (r', match x with TokOk t => Some t | _ => last end)
+              | 1%Z => let '(x, r') := next_token ps r in (r', match x with TokOk t => Some t | _ => last end)
+              | 6%Z => (r, last)
+              | _ => match last with
+                     | None => (r, last)
+                     | Some t => (match op with
+                                  | 2%Z => move_to_token r t | 3%Z => move_to_token_nospace r t
+                                  | 4%Z => move_past_token r t | _ => move_past_token_nopost r t end, last)
+                     end
+              end in
+          line :: run_script_multi fuel states rest r' last'
+      | _ => [[63%N]]
+      end
+    end
+  end.
+
+Definition rd_op : rd (Z * nat) :=
+  bind rd_Z (fun o => bind rd_nat (fun k => ret (o, k))).
+
+Definition entry_tok_multi (inp : list Z) : list Z :=
+  match bind (rd_list rd_pstate) (fun sts => bind rd_str (fun s => bind rd_bool (fun tol =>
+        bind (rd_list rd_op) (fun ops => ret (sts, s, tol, ops))))) inp with
+  | Some ((sts, s, tol, ops), _) =>
+      let r := {| r_s := s; r_pos := 0; r_tol := tol |} in
+      to_wire (join [32%N] (run_script_multi (S (length s)) sts ops r None))
+  | None => bad_input
+  end.
